@@ -225,6 +225,129 @@ def r12_5(rep: Report) -> None:
     rep.extra['timescale_conversions'] = n_sites
 
 
+class _Units:
+    """dimension of a time quantity: SEC (seconds), REF (ticks of the timing reference), REP (ticks of
+    the representation).  State = (frozenset of (name, unit), timescales known equal)"""
+
+    def __init__(self, fn: ast.FunctionDef, rep_scale: str, ref_scale: str):
+        self.fn = fn
+        self.rep_scale = rep_scale
+        self.ref_scale = ref_scale
+        self.errors: list[tuple[ast.AST, str]] = []
+
+    def unit(self, e: ast.AST, env: dict, same: bool) -> str | None:
+        if isinstance(e, ast.Name):
+            return env.get(e.id)
+        if isinstance(e, ast.Call):
+            cn = call_name(e) or ''
+            if cn.endswith('total_seconds'):
+                return 'SEC'
+            if cn in ('int', 'float', 'round', 'math.floor', 'math.ceil', 'floor', 'abs') and e.args:
+                return self.unit(e.args[0], env, same)
+            return None
+        if isinstance(e, ast.UnaryOp):
+            return self.unit(e.operand, env, same)
+        if isinstance(e, ast.BinOp):
+            l, r = e.left, e.right
+            if isinstance(e.op, (ast.Div, ast.FloorDiv)):
+                if norm(r) == self.ref_scale and isinstance(l, ast.BinOp) and isinstance(l.op, ast.Mult):
+                    for x, sc in ((l.left, l.right), (l.right, l.left)):
+                        if norm(sc) == self.rep_scale:
+                            u = self.unit(x, env, same)
+                            if u == 'REP' and not same:
+                                self.errors.append((e, 'a quantity that is already in representation ticks is '
+                                                       'scaled by representation.timescale / reference timescale again'))
+                                return 'MIX'
+                            return 'REP' if u in ('REF', None) else u
+                return self.unit(l, env, same)
+            if isinstance(e.op, ast.Mult):
+                for x, sc in ((l, r), (r, l)):
+                    if norm(sc) == self.ref_scale and self.unit(x, env, same) == 'SEC':
+                        return 'REF'
+                    if norm(sc) == self.rep_scale and self.unit(x, env, same) == 'SEC':
+                        return 'REP'
+                return self.unit(l, env, same) or self.unit(r, env, same)
+            if isinstance(e.op, (ast.Add, ast.Sub)):
+                a, b = self.unit(l, env, same), self.unit(r, env, same)
+                if a and b and a != b and {a, b} == {'REF', 'REP'} and not same:
+                    self.errors.append((e, f'`{norm(l)[:30]}` is in {"reference" if a == "REF" else "representation"} '
+                                           f'ticks and `{norm(r)[:30]}` in {"reference" if b == "REF" else "representation"} '
+                                           'ticks: they are added before one of them is converted'))
+                    return 'MIX'
+                return a or b
+        return None
+
+
+def r12_6(rep: Report) -> None:
+    """dimensional analysis of ServeMpsMedia.calculate_media_segment_index: the Period offset is in
+    ticks of the timing reference, the requested $Time$ in ticks of the representation; the two are
+    only added after the offset has been converted, and the lookup gets representation ticks"""
+    rid = 'R12.6'
+    rel = MR
+    tree = rep.repo.tree(rel)
+    cls = need(find_class(tree, 'ServeMpsMedia'), 'ServeMpsMedia')
+    fn = need(find_func(cls, 'calculate_media_segment_index'), 'ServeMpsMedia.calculate_media_segment_index')
+    construct = f'{rel}::ServeMpsMedia.calculate_media_segment_index'
+    params = [a.arg for a in fn.args.args]
+    time_param = next((p for p in params if 'time' in p and p not in ('timing',)), None)
+    rep_param = next((p for p in params if p.startswith('rep')), 'representation')
+    ref_scale = None
+    for n in ast.walk(fn):
+        if isinstance(n, ast.Attribute) and n.attr == 'timescale' and 'ref' in norm(n.value).lower():
+            ref_scale = norm(n)
+    if ref_scale is None or time_param is None:
+        raise AnalysisError('calculate_media_segment_index: timing reference timescale / time parameter not found')
+    un = _Units(fn, f'{rep_param}.timescale', ref_scale)
+    lookups: list[tuple[ast.AST, str | None, bool]] = []
+
+    def run(stmts, env: dict, same: bool):
+        for i, st in enumerate(stmts):
+            if isinstance(st, ast.If):
+                t = norm(st.test)
+                eq = {f'{un.rep_scale} != {un.ref_scale}', f'{un.ref_scale} != {un.rep_scale}'}
+                ne = {f'{un.rep_scale} == {un.ref_scale}', f'{un.ref_scale} == {un.rep_scale}'}
+                rest = stmts[i + 1:]
+                e1, e2 = dict(env), dict(env)
+                run(st.body + rest, e1, same or t in ne)
+                run(st.orelse + rest, e2, same or t in eq)
+                return
+            for c in ast.walk(st):
+                if isinstance(c, ast.Call) and (call_name(c) or '').endswith('get_segment_index') and c.args:
+                    lookups.append((c, un.unit(c.args[0], env, same), same))
+            tgt = val = None
+            if isinstance(st, ast.Assign) and len(st.targets) == 1 and isinstance(st.targets[0], ast.Name):
+                tgt, val = st.targets[0].id, st.value
+            elif isinstance(st, ast.AnnAssign) and isinstance(st.target, ast.Name) and st.value is not None:
+                tgt, val = st.target.id, st.value
+            elif isinstance(st, ast.AugAssign) and isinstance(st.target, ast.Name):
+                tgt, val = st.target.id, ast.BinOp(left=ast.Name(id=st.target.id, ctx=ast.Load()), op=st.op,
+                                                   right=st.value)
+            if tgt is not None:
+                env[tgt] = un.unit(val, env, same)
+            if isinstance(st, (ast.Return, ast.Raise)):
+                return
+    run(fn.body, {time_param: 'REP'}, False)
+    if not lookups:
+        raise AnalysisError('calculate_media_segment_index: get_segment_index is not called')
+    seen = set()
+    for node, why in un.errors:
+        k = norm(node)[:60]
+        if k in seen:
+            continue
+        seen.add(k)
+        rep.fail(rid, construct, f'mixed units:{k}', why + ' (wrong for every track whose timescale differs '
+                 'from the timing reference: audio, text)', node)
+    bad = [(c, u) for c, u, same in lookups if not (u == 'REP' or (u == 'REF' and same))]
+    if not un.errors:
+        rep.ok(rid, construct, 'no mixed units')
+    if bad and not un.errors:
+        rep.fail(rid, construct, 'lookup in representation ticks',
+                 f'get_segment_index is called with a quantity in {bad[0][1] or "unknown"} units; it expects '
+                 'ticks of the representation', bad[0][0])
+    elif not bad:
+        rep.ok(rid, construct, 'lookup in representation ticks')
+
+
 def analyse(rep: Report) -> None:
     rep.explanation = (
         'Access and error discipline of the multi-period routes: ownership test dominating every '
@@ -236,6 +359,7 @@ def analyse(rep: Report) -> None:
     rep.rule('R12.2', 'requests beyond the end of the media are refused with 404', floor=2)
     rep.rule('R12.3', 'calculate_media_segment_index never returns None as the number', floor=2)
     rep.rule('R12.4', 'period starts accumulate the durations', floor=4)
+    rep.rule('R12.6', 'Period offset and requested time are added in the same timescale', floor=1)
     rep.rule('R12.5', 'timescale conversions multiply before dividing', floor=3)
     idx = Index(rep.repo)
     cg = CallGraph(idx)
@@ -243,3 +367,4 @@ def analyse(rep: Report) -> None:
     r12_2_3(rep, idx, cg)
     r12_4(rep)
     r12_5(rep)
+    r12_6(rep)
